@@ -390,5 +390,59 @@ def oracle_encode(t, v, env):
     raise OracleError("unknown type " + nm)
 
 
+def wire_canon(t, bs, pos=0):
+    """Split well-formed bytes of type t along the documented format (independently of the library) and return
+    (canonical structure, end position): leaves as raw bytes, set elements and mapping entries sorted with exact repetitions merged
+    (a later entry of a repeated key wins) -- two byte strings with equal canonical structure encode the same value, element order
+    and repeated elements aside."""
+    nm, subs = t
+    if nm in INTS:
+        k = INTS[nm][0]
+        return bs[pos:pos + k], pos + k
+    if nm in ("bool",):
+        return bs[pos:pos + 1], pos + 1
+    if nm == "float":
+        return bs[pos:pos + 4], pos + 4
+    if nm == "double":
+        return bs[pos:pos + 8], pos + 8
+    if nm == "UUID":
+        return bs[pos:pos + 16], pos + 16
+    if nm == "Offset":
+        return bs[pos:pos + 24], pos + 24
+    if nm == "string":
+        n = int.from_bytes(bs[pos:pos + 8], "little")
+        return bs[pos:pos + 8 + n], pos + 8 + n
+    if nm in ("sequence", "set"):
+        n = int.from_bytes(bs[pos:pos + 8], "little")
+        pos += 8
+        out = []
+        for _ in range(n):
+            x, pos = wire_canon(subs[0], bs, pos)
+            out.append(x)
+        if nm == "set":
+            out = sorted(set(out), key=repr)
+        return (nm, tuple(out)), pos
+    if nm == "mapping":
+        n = int.from_bytes(bs[pos:pos + 8], "little")
+        pos += 8
+        d = {}
+        for _ in range(n):
+            k, pos = wire_canon(subs[0], bs, pos)
+            x, pos = wire_canon(subs[1], bs, pos)
+            d[k] = x
+        return ("mapping", tuple(sorted(d.items(), key=repr))), pos
+    if nm == "tuple":
+        out = []
+        for sub in subs:
+            x, pos = wire_canon(sub, bs, pos)
+            out.append(x)
+        return ("tuple", tuple(out)), pos
+    if nm == "variant":
+        i = int.from_bytes(bs[pos:pos + 8], "little")
+        x, pos = wire_canon(subs[i], bs, pos + 8)
+        return ("variant", i, x), pos
+    raise OracleError("unknown type " + nm)
+
+
 def values_equal(a_sx, b_sx):
     return canon(a_sx) == canon(b_sx)
